@@ -17,7 +17,9 @@ RULE = ("Hypothesis draws a round-robin configuration as in C01 (nine sampler ki
         "calibrate() call' or 'checkpoint -> restore_from_checkpoint -> continue on the restored object' (3^(n-1) patterns) - "
         "for larger n (to 8) patterns are drawn; oracle = byte identity with the uninterrupted twin (five arrays + final return "
         "value). Non-trivial = a restore boundary immediately before a stateful or history-driven sampler; distinct = (config, "
-        "pattern).")
+        "pattern). With a convergence precision in the configuration the reference rows come from the uninterrupted run without "
+        "early stopping, the batch at which the rule first holds is derived from its losses, and every cut pattern must execute "
+        "exactly the batches the rule prescribes (each calibrate() call runs at least one batch).")
 ASSUMPTIONS = ["the RL scheduler is not included: C05 quantifies over configurations as in C01 where RL is a single session, a cut "
                "opens a second session (an extra policy draw that is not promised to be invisible), and an RL scheduler cannot "
                "be checkpointed at all (known finding C04/rl-scheduler-unpicklable)",
